@@ -18,6 +18,7 @@ import (
 	"encoding/hex"
 	"encoding/json"
 	"fmt"
+	"os"
 	"sort"
 	"strings"
 
@@ -29,6 +30,7 @@ import (
 
 	"github.com/lidofinance/dc4bc/airgapped"
 	"github.com/lidofinance/dc4bc/client/types"
+	"github.com/lidofinance/dc4bc/dkg"
 	"github.com/lidofinance/dc4bc/fsm/types/requests"
 	"github.com/lidofinance/dc4bc/fsm/types/responses"
 )
@@ -42,6 +44,9 @@ type airTraceStats struct {
 	Skipped  int
 	SkipWhy  map[string]int
 	Machines int
+	// reinit_dkg operations: entries handed to the shadow machines, entries the handler passes over
+	ReinitEntries    int
+	ReinitPassedOver int
 }
 
 type airTrace struct {
@@ -57,11 +62,13 @@ type airTrace struct {
 	// the last line written (operation, observation)
 	lastOp, lastOb string
 	signSeen       map[string]int
+	// machine/round -> the last `reinit` line written for it and the real machine's answer
+	lastReinit map[string][2]string
 }
 
 func newAirTrace(ops, obs *bufio.Writer) *airTrace {
 	return &airTrace{ops: ops, obs: obs, keyIDs: map[string]int{}, scal: map[string]string{}, sids: map[string]string{},
-		machines: map[*airgapped.Machine]int{}, tainted: map[string]bool{}, polys: map[string]map[int][]kyber.Scalar{}, signSeen: map[string]int{},
+		machines: map[*airgapped.Machine]int{}, tainted: map[string]bool{}, polys: map[string]map[int][]kyber.Scalar{}, signSeen: map[string]int{}, lastReinit: map[string][2]string{},
 		st: airTraceStats{ByKind: map[string]int{}, Outcomes: map[string]int{}, SkipWhy: map[string]int{}}}
 }
 
@@ -237,6 +244,9 @@ func (t *airTrace) record(c *cluster, n *vnode, cold types.Operation, rb []byte,
 		kind = "masterkey"
 	case "state_signing_await_partial_signs":
 		kind = "sign"
+	case "reinit_dkg":
+		t.recordReinit(c, n, cold, rb, procErr)
+		return
 	default:
 		return
 	}
@@ -571,6 +581,158 @@ func (t *airTrace) record(c *cluster, n *vnode, cold types.Operation, rb []byte,
 		t.emit(head+" "+strings.Join(toks, " "), ob)
 		outcome(ob)
 	}
+}
+
+// recordReinit: the real machine of `n` has just handled the reinit_dkg operation `cold` (handleReinitDKG: the entries of its
+// payload through GetOperationResult one after the other, then the key ring of the round). A SHADOW machine - fresh database,
+// the same mnemonic - is handed the same entries one by one through ProcessOperation, each written down and compared with the
+// model like any other operation; the line `reinit <machine> <round> from <shadow>` then asks the model (Model/AirReinit.lean:
+// reinitOp over the entries the shadow machine's lines spelled out, in order, `innerskip` for those the handler passes over)
+// for the answer of the real machine: the public polynomial of `operation_processed_successfully`, an error result, or a
+// fatal error; `ring` asks for the stored share.
+func (t *airTrace) recordReinit(c *cluster, n *vnode, cold types.Operation, rb []byte, procErr error) {
+	m := n.air
+	round := cold.DKGIdentifier
+	mid := t.machineID(m)
+	key := fmt.Sprintf("%d/%s", mid, round)
+	if t.tainted[key] {
+		t.st.Skipped++
+		t.st.SkipWhy["round left alone after an earlier skip or refusal"]++
+		return
+	}
+	var inner []types.Operation
+	if json.Unmarshal(cold.Payload, &inner) != nil {
+		t.skip(key, "reinit payload does not parse")
+		return
+	}
+	dir, err := os.MkdirTemp("", "verif-shadow-")
+	if err != nil {
+		t.skip(key, "no directory for the shadow machine")
+		return
+	}
+	defer os.RemoveAll(dir)
+	shadow, err := newMachine(dir, "pw", testMnemonics[n.idx%len(testMnemonics)])
+	if err != nil {
+		t.skip(key, "shadow machine cannot be made")
+		return
+	}
+	defer shadow.VerifCloseDB()
+	if !shadow.GetPubKey().Equal(m.GetPubKey()) {
+		t.skip(key, "the shadow machine has another key than the re-initialised one")
+		return
+	}
+	sid := t.machineID(shadow)
+	sn := &vnode{air: shadow, idx: n.idx, name: n.name}
+	entries, passed := 0, 0
+	for _, o := range inner {
+		if string(o.Event) != "" || string(o.Type) == "state_sig_proposal_await_participants_confirmations" {
+			t.emit(fmt.Sprintf("innerskip %d", sid), "ok")
+			passed++
+			continue
+		}
+		before := t.st.Ops
+		path, perr := shadow.ProcessOperation(o, false)
+		if perr != nil {
+			t.record(c, sn, o, nil, perr)
+		} else {
+			rb2, rerr := os.ReadFile(path)
+			os.Remove(path)
+			if rerr != nil {
+				t.skip(key, "result file of the shadow machine unreadable")
+				return
+			}
+			t.record(c, sn, o, rb2, nil)
+		}
+		if t.st.Ops == before || t.tainted[fmt.Sprintf("%d/%s", sid, o.DKGIdentifier)] {
+			t.skip(key, "an entry of the reinit payload could not be written down for the model")
+			return
+		}
+		entries++
+		if perr != nil {
+			break
+		}
+	}
+	ob := "fatal"
+	if procErr == nil {
+		var res types.Operation
+		if json.Unmarshal(rb, &res) != nil {
+			t.skip(key, "result file does not parse")
+			return
+		}
+		switch {
+		case string(res.Event) == "operation_processed_successfully":
+			kr, err := dkg.LoadPubPolyBLSKeyringFromBytes(eciesSuite, res.ExtraData)
+			if err != nil {
+				ob = "processed unreadable-polynomial"
+				break
+			}
+			_, cms := kr.PubPoly.Info()
+			var ss []string
+			for _, cm := range cms {
+				v, ok := t.scal[pointHex(cm)]
+				if !ok {
+					v = "?"
+				}
+				ss = append(ss, v)
+			}
+			ob = "processed poly=" + strings.Join(ss, ",")
+		case len(res.ResultMsgs) > 0:
+			var req requests.DKGProposalConfirmationErrorRequest
+			if json.Unmarshal(res.ResultMsgs[len(res.ResultMsgs)-1].Data, &req) != nil {
+				ob = "err pid=?"
+			} else {
+				ob = fmt.Sprintf("err pid=%d", req.ParticipantId)
+			}
+		default:
+			ob = "unreadable-result event=" + string(res.Event)
+		}
+	}
+	t.emit(fmt.Sprintf("reinit %d %s from %d", mid, strTok(round), sid), ob)
+	t.lastReinit[key] = [2]string{t.lastOp, t.lastOb}
+	t.st.ByKind["reinit"]++
+	t.st.Outcomes["reinit:"+strings.SplitN(ob, " ", 2)[0]]++
+	t.st.ReinitEntries += entries
+	t.st.ReinitPassedOver += passed
+	// the share the re-initialised machine holds now
+	sh := "-"
+	if krs, err := m.GetBLSKeyrings(); err == nil && krs[round] != nil {
+		sh = scalarHex(krs[round].Share.V)
+	}
+	t.emit(fmt.Sprintf("ring %d %s", mid, strTok(round)), "share="+sh)
+}
+
+// stopped: the process of `old` was stopped and started again on the same database (`reopened`): `stop` to the model
+func (t *airTrace) stopped(old, reopened *airgapped.Machine) bool {
+	mid, ok := t.rebind(old, reopened)
+	if !ok {
+		return false
+	}
+	t.emit(fmt.Sprintf("stop %d", mid), "ok")
+	t.st.Restarts++
+	return true
+}
+
+// reinitReplayed: after `stopped`, the machine replayed the operations log of a re-initialised round - the one reinit_dkg
+// operation. The model is handed that operation again (its first answer is what the replay republishes) and asked for the
+// share, which is read from the real machine.
+func (t *airTrace) reinitReplayed(m *airgapped.Machine, round string) {
+	mid, ok := t.machines[m]
+	if !ok {
+		return
+	}
+	key := fmt.Sprintf("%d/%s", mid, round)
+	lr, ok := t.lastReinit[key]
+	if !ok || t.tainted[key] {
+		t.skip(key, "replay of a re-initialised round whose reinit operation was not written down")
+		return
+	}
+	t.emit(lr[0], lr[1])
+	t.st.Replayed++
+	sh := "-"
+	if krs, err := m.GetBLSKeyrings(); err == nil && krs[round] != nil {
+		sh = scalarHex(krs[round].Share.V)
+	}
+	t.emit(fmt.Sprintf("ring %d %s", mid, strTok(round)), "share="+sh)
 }
 
 // a ciphertext too short for the ECIES layer makes kyber panic; the machine turns that into a handler error like a
